@@ -203,7 +203,8 @@ rw_open(int32 file_id, uint32 flags)
 int32
 Hstartaccess(int32 file_id, uint16 tag, uint16 ref, uint32 flags)
 {
-    H4V_CHECK(tag != DFTAG_NULL && ref != DFREF_WILDCARD, "Hstartaccess with an assigned tag/ref");
+    if (tag == DFTAG_NULL || ref == DFREF_WILDCARD) /* e.g. Htagnewref had no ref left: the real one refuses */
+        return FAIL;
     return rw_open(file_id, flags);
 }
 int32
@@ -226,7 +227,7 @@ HRPconvert(int32 fid, uint16 tag, uint16 ref, int32 xdim, int32 ydim, int16 sche
     (void)scheme;
     (void)cinfo;
     H4V_CHECK(xdim == g_ri->img_dim.xdim && ydim == g_ri->img_dim.ydim && pixel_size == RW_PS, "HRPconvert: image geometry");
-    return rw_open(fid, DFACC_READ);
+    return rw_open(fid, DFACC_RDWR);
 }
 int
 HBconvert(int32 aid)
@@ -239,7 +240,8 @@ HBconvert(int32 aid)
 int
 Hendaccess(int32 access_id)
 {
-    H4V_CHECK(access_id == RW_AID && g_io.open, "Hendaccess on the image's open access element");
+    if (access_id != RW_AID || !g_io.open) /* GRIgetaid ends access on id 0 when a compression request is pending */
+        return FAIL;
     g_io.open = 0;
     return SUCCEED;
 }
@@ -333,6 +335,7 @@ Hwrite(int32 access_id, int32 length, const void *data)
 /* HDmemfill: num_items copies of the item.  cbmc: only the ghost item (the one holding the ghost request element, or the
    ghost pixel column in a fill line) is materialised -- the caller's clauses only ever look at that item. */
 int32 g_fill_item;
+int   g_il_may_fail; /* GRIil_convert may fail (its six work arrays cannot be allocated) */
 void *
 HDmemfill(void *dest, const void *src, uint32 item_size, uint32 num_items)
 {
@@ -465,7 +468,7 @@ int GRIil_convert(const void *inbuf, gr_interlace_t inil, void *outbuf, gr_inter
     __CPROVER_requires(ncomp == RW_NCOMP && nt == RW_NT)
     __CPROVER_requires(inbuf != NULL && outbuf != NULL && !__CPROVER_same_object(inbuf, outbuf))
     __CPROVER_assigns(__CPROVER_object_upto(outbuf, (__CPROVER_size_t)(dims[0] * dims[1] * RW_PS)))
-    __CPROVER_ensures(__CPROVER_return_value == SUCCEED || __CPROVER_return_value == FAIL)
+    __CPROVER_ensures(__CPROVER_return_value == SUCCEED || (__CPROVER_return_value == FAIL && g_il_may_fail))
     __CPROVER_ensures(__CPROVER_return_value == FAIL || !(g_i >= 0 && g_i < dims[0] && g_j >= 0 && g_j < dims[1]) ||
                       ((const uint8 *)outbuf)[IL_IDX(outil, g_i, g_j, g_c, dims[0], dims[1], RW_NCOMP) * RW_CS + g_bb] ==
                           ((const uint8 *)inbuf)[IL_IDX(inil, g_i, g_j, g_c, dims[0], dims[1], RW_NCOMP) * RW_CS + g_bb]);
@@ -604,6 +607,11 @@ mk_ghosts(void)
     memset(&g_io, 0, sizeof g_io);
     g_off       = 0;
     g_doff      = -1;
+#ifdef RW_ILOOM
+    g_il_may_fail = 1;
+#else
+    g_il_may_fail = 0;
+#endif
     g_fill_item = -1;
     g_fill_exp  = 0;
     g_has_data  = 0;
@@ -618,9 +626,11 @@ mk_ghosts(void)
 static void
 mk_image(void)
 {
-    g_gr = calloc(1, sizeof(gr_info_t));
-    g_ri = calloc(1, sizeof(ri_info_t));
-    H4V_ASSUME(g_gr != NULL && g_ri != NULL);
+    /* typed static objects (field-sensitive in cbmc; a calloc'ed struct is a byte array there) */
+    static gr_info_t gr_obj;
+    static ri_info_t ri_obj;
+    g_gr = &gr_obj;
+    g_ri = &ri_obj;
     H4V_ND(unsigned, gr_modified0);
     H4V_ND(unsigned, meta_modified0);
     H4V_ND(unsigned, data_modified0);
@@ -671,6 +681,11 @@ mk_image_io(int32 xdim, int32 ydim, int for_write)
     g_ri->use_buf_drvr = use_buf_drvr;
     g_ri->use_cr_drvr  = use_cr_drvr;
     /* storage: no tag/ref yet | tag/ref assigned but no data | data present (exactly xdim*ydim pixels) */
+#ifdef RW_HASDATA
+    has_data = RW_HASDATA;
+    if (has_data)
+        tagref_assigned = 1;
+#endif
     H4V_ASSUME(!has_data || tagref_assigned);
     if (tagref_assigned) {
         g_ri->img_tag = DFTAG_RI;
@@ -680,10 +695,6 @@ mk_image_io(int32 xdim, int32 ydim, int for_write)
         g_ri->img_tag = DFTAG_NULL;
         g_ri->img_ref = DFREF_WILDCARD;
     }
-#ifdef RW_HASDATA
-    has_data = RW_HASDATA;
-    H4V_ASSUME(!has_data || tagref_assigned);
-#endif
     g_has_data = has_data != 0;
     g_elem_len = has_data ? RW_PS * xdim * ydim : 0;
     /* a pending compression request only exists before the first write */
@@ -737,9 +748,9 @@ mk_fill_attr(void)
 }
 
 /* the id is a constant in all runs but the invalid-argument ones (a symbolic id makes every field access through the
-   looked-up image pointer a case split) */
-#ifdef RW_BADARGS
-#define RW_REQ_RIID(nd) (nd)
+   looked-up image pointer a case split); the invalid-id runs use constants as well */
+#ifdef RW_BADID /* a constant id that is not an image's: the GR id (wrong group) or an unknown one */
+#define RW_REQ_RIID(nd) RW_BADID
 #else
 #define RW_REQ_RIID(nd) RW_RIID
 #endif
@@ -812,14 +823,20 @@ h_GRreadimage(void)
     g_fill_exp  = g_attr_present ? g_attr_data[g_c * RW_CS + g_bb] : 0;
     g_doff      = RW_PS * ((sy + g_j * ety) * xdim + sx + g_i * etx) + g_c * RW_CS + g_bb;
     int r       = GRreadimage(riid, start, stride, count, data);
+#if !defined(RW_OUTSIDE) && !defined(RW_BADARGS)
+#if !defined(RW_HASDATA) || RW_HASDATA == 1
     H4V_COVER(r == SUCCEED && g_has_data && tx == 1 && ty == 1 && sx == 0 && sy == 0 && cx == xdim && cy == ydim && !stride_null,
               "read: whole image");
     H4V_COVER(r == SUCCEED && g_has_data && stride_null && cx < xdim, "read: solid block, no stride array");
     H4V_COVER(r == SUCCEED && g_has_data && tx == 2 && ty == 3 && cx > 1 && !stride_null, "read: strides 2 x 3");
     H4V_COVER(r == SUCCEED && g_has_data && tx == 3 && ty == 1 && cy > 1 && !stride_null, "read: strides 3 x 1");
+    H4V_COVER(r == SUCCEED && g_io.nconv > 0, "read: with number-type conversion");
+#endif
+#if !defined(RW_HASDATA) || RW_HASDATA == 0
     H4V_COVER(r == SUCCEED && !g_has_data && g_attr_present, "read: no data, fill value attribute");
     H4V_COVER(r == SUCCEED && !g_has_data && !g_attr_present, "read: no data, default fill");
-    H4V_COVER(r == SUCCEED && g_io.nconv > 0, "read: with number-type conversion");
+#endif
+#endif
     H4V_COVER(r == FAIL, "read: refused or failed");
     H4V_CANARY("GRreadimage end");
 }
@@ -854,6 +871,7 @@ h_GRwriteimage(void)
     H4V_ASSUME(0 <= g_c && g_c < RW_NCOMP && 0 <= g_bb && g_bb < RW_CS);
     H4V_ASSUME(0 <= g_x && g_x < xdim && 0 <= g_y && g_y < ydim);
     H4V_ASSUME(g_i >= 0 && g_i <= RW_MAXDIM && g_j >= 0 && g_j <= RW_MAXDIM);
+    H4V_ASSUME(g_rx >= 0 && g_rx < RW_MAXSTRIDE && g_ry >= 0 && g_ry < RW_MAXSTRIDE);
     if (args_ok) {
         H4V_ASSUME(g_x < sx || (g_x - sx == g_i * etx + g_rx && 0 <= g_rx && g_rx < etx));
         H4V_ASSUME(g_y < sy || (g_y - sy == g_j * ety + g_ry && 0 <= g_ry && g_ry < ety));
@@ -863,6 +881,7 @@ h_GRwriteimage(void)
     g_fill_item = g_x;
     g_fill_exp  = has_fill_value ? fillv[g_c * RW_CS + g_bb] : 0;
     int r       = GRwriteimage(riid, start, stride, count, wdata);
+#if !defined(RW_OUTSIDE) && !defined(RW_BADARGS)
 #if !defined(RW_HASDATA) || RW_HASDATA == 1
     H4V_COVER(r == SUCCEED && g_has_data && tx == 2 && ty == 3 && cx > 1 && !stride_null, "write: existing image, strides 2 x 3");
     H4V_COVER(r == SUCCEED && g_has_data && stride_null && cx < xdim && cy > 1, "write: existing image, solid block");
@@ -871,6 +890,10 @@ h_GRwriteimage(void)
 #if (!defined(RW_HASDATA) || RW_HASDATA == 0) && (!defined(RW_FILLIMG) || RW_FILLIMG == 1)
     H4V_COVER(r == SUCCEED && !g_has_data && fill_img && stride_null && cx < xdim && cy < ydim, "write: new image, solid block with fill");
     H4V_COVER(r == SUCCEED && !g_has_data && fill_img && !stride_null && tx == 2 && ty == 2 && cy > 1, "write: new image, strided with fill");
+#endif
+#if (!defined(RW_HASDATA) || RW_HASDATA == 0) && (!defined(RW_FILLIMG) || RW_FILLIMG == 0)
+    H4V_COVER(r == SUCCEED && !g_has_data && !fill_img && !stride_null && tx == 2 && ty == 2 && cy > 1, "write: new image, strided, no fill");
+#endif
 #endif
     H4V_COVER(r == FAIL, "write: refused or failed");
     H4V_CANARY("GRwriteimage end");
